@@ -424,11 +424,17 @@ func lookupAnyField(t types.Type, name string) (types.Object, []int, bool) {
 
 // qualified resolves pkgname.Name for constants of imported packages.
 func (fv *FuncVC) qualified(pkgName, name string, sc *SpecScope) (Val, bool) {
+	var cands []*types.Package
+	if ip := fv.importedAs(pkgName); ip != nil {
+		cands = append(cands, ip)
+	}
 	for _, p := range fv.w.All {
-		if p.Types == nil || p.Types.Name() != pkgName {
-			continue
+		if p.Types != nil && p.Types.Name() == pkgName {
+			cands = append(cands, p.Types)
 		}
-		o := p.Types.Scope().Lookup(name)
+	}
+	for _, pt := range cands {
+		o := pt.Scope().Lookup(name)
 		switch oo := o.(type) {
 		case *types.Const:
 			if v, ok := fv.constVal(oo.Val(), oo.Type()); ok {
@@ -843,8 +849,14 @@ func (fv *FuncVC) specFuncApp(f *types.Func, recv *Val, args []Val, sc *SpecScop
 		}
 		// convert arguments to parameter types (boxing)
 		for i := range args {
-			if i < sig.Params().Len() {
-				pt := sig.Params().At(i).Type()
+			np := sig.Params().Len()
+			if i < np || (sig.Variadic() && np > 0) {
+				var pt types.Type
+				if sig.Variadic() && i >= np-1 {
+					pt = sig.Params().At(np - 1).Type().(*types.Slice).Elem() // one value of the variadic parameter
+				} else {
+					pt = sig.Params().At(i).Type()
+				}
 				if _, isTP := pt.(*types.TypeParam); !isTP && args[i].GoT != nil {
 					args[i] = fv.convertTo(args[i], args[i].GoT, pt, sc.st)
 				}
